@@ -128,6 +128,11 @@ where
 
     /// Await this task until it is ready and we've received the result.
     pub async fn ready(&self) -> T {
+        // Create the notification future _before_ looking at the result. `notify_waiters` only
+        // reaches futures which already exist when it is called (and stores no permit), so a
+        // result arriving between our check and the wait below would otherwise never wake us up.
+        let notified = self.ready_signal.notified();
+
         // Check if an result already exists and return it directly.
         {
             let ready_result = self.ready_result.lock().await;
@@ -142,7 +147,7 @@ where
         p2panda_core::verif::point("task.ready.after_check").await;
 
         // If not, we wait until we got notified that an result exists.
-        self.ready_signal.notified().await;
+        notified.await;
 
         let ready_result = self.ready_result.lock().await;
         ready_result
